@@ -38,7 +38,11 @@ namespace Potassco {
 //! A wrapper around an std::istream that provides buffering and a simple interface for extracting characters and integers.
 class BufferedStream {
 public:
+#if defined(POTASSCO_LIBPOTASSCO_VERIF) && defined(POTASSCO_VERIF_BUF_SIZE)
+	enum { BUF_SIZE = POTASSCO_VERIF_BUF_SIZE };
+#else
 	enum { BUF_SIZE = 4096 };
+#endif
 	//! Creates a new object wrapping the given stream.
 	explicit BufferedStream(std::istream& str);
 	~BufferedStream();
